@@ -171,9 +171,9 @@ def make_state(seed):
         import re as _re
 
         src = _re.sub(r"argument_parser\.description = '([^' ]+) ([^']*)'", lambda m: "argument_parser.description = '%s ' + '%s'" % (m.group(1), m.group(2)), src, count=1)
-    if kind == "argparse" and src.rstrip().endswith("return argument_parser") and '"""' not in src and ch.chance("triple", 0.5):
+    if kind == "argparse" and "\n    return argument_parser, " in src and ch.chance("triple", 0.6):
         # a hand-written function that returns more than the parser and one value
-        src = src.rstrip()[: -len("return argument_parser")] + "return argument_parser, 640, 480\n"
+        src = src.rstrip("\n") + ", 480\n"
     if kind != "live_function" and ch.chance("qualified", 0.25):
         # annotations spelled through the module (typing.Optional[int], List[typing.Any]): names nested inside a subscript
         src = src.replace(": Optional[", ": typing.Optional[").replace(": Literal[", ": typing.Literal[").replace("Optional[List[", "Optional[typing.List[")
